@@ -197,6 +197,55 @@ def _session(vc, w, pools=None, futures=()):
     return s, lock
 
 
+@harness('C45', '_ReconnectionHandler.run', functions=['cassandra.pool._ReconnectionHandler.run', 'cassandra.pool._ReconnectionHandler.cancel'], native='contracts.native.c45:replay')
+def handler_run_cancelled(vc):
+    """a scheduled reconnection attempt (host or control connection) with cancel() - what ControlConnection.shutdown / Cluster.on_down / shutdown do to a pending
+    handler - injected before the attempt, while the attempt is connecting, or never: ensures a cancelled handler starts no attempt; a handler cancelled while
+    connecting closes the connection it opened exactly once, hands it to nobody (no on_reconnection, no callback) and, when the attempt failed instead, whatever it
+    re-schedules is the same cancelled handler (whose run() opens nothing)"""
+    from cassandra.pool import _ReconnectionHandler
+    w = P.World(vc)
+    log = {'sched': [], 'reconn': [], 'cb': 0, 'attempts': 0}
+    when = vc.choice('cancel', ['before', 'while-connecting', 'never'])
+    fails = vc.choice('attempt', ['connects', 'fails'])
+
+    class Sched(object):
+        def schedule(self, delay, fn, *a, **k):
+            log['sched'].append(fn)
+    h = vc.obj(_ReconnectionHandler, scheduler=Sched(), schedule=iter([1.0, 2.0]), _cancelled=False, callback_args=(), callback_kwargs={})
+    h.attrs['callback'] = _M(lambda *a, **k: log.__setitem__('cb', log['cb'] + 1))
+    if when == 'before':
+        vc.call('cassandra.pool._ReconnectionHandler.cancel', h)
+
+    def try_reconnect(self_):
+        log['attempts'] += 1
+        c = None if fails == 'fails' else P.Conn(w, 'attempt')
+        if when == 'while-connecting':
+            vc.call('cassandra.pool._ReconnectionHandler.cancel', h)
+        if c is None:
+            raise PyExc(SObj(OSError, {'args': ('refused',)}))
+        return c
+    vc.stub('cassandra.pool._ReconnectionHandler.try_reconnect', try_reconnect)
+    vc.stub('cassandra.pool._ReconnectionHandler.on_exception', lambda self_, exc, d: True)
+    vc.stub('cassandra.pool._ReconnectionHandler.on_reconnection', lambda self_, c: log['reconn'].append(c))
+    vc.call('cassandra.pool._ReconnectionHandler.run', h)
+    if when == 'before':
+        vc.check('cancelled/no-attempt-started', log['attempts'] == 0 and not w.opened and not log['sched'])
+        return
+    vc.check('attempt/exactly-one', log['attempts'] == 1)
+    if when == 'while-connecting':
+        vc.check('cancelled-while-connecting/connection-closed-once', all(len(c.close_calls) == 1 for c in w.opened))
+        vc.check('cancelled-while-connecting/handed-to-nobody', not log['reconn'] and log['cb'] == 0)
+        # what a failed attempt re-schedules is this handler's own run: on a cancelled handler it opens nothing
+        before = len(w.opened)
+        for fn in log['sched']:
+            vc.check('cancelled-while-connecting/rescheduled-run-is-this-handler', isinstance(fn, BoundMethod) and fn.self_obj is h)
+            call_value(vc.ctx, fn, [], {})
+        vc.check('cancelled-while-connecting/later-runs-open-nothing', len(w.opened) == before and log['attempts'] == 1)
+    elif fails == 'connects':
+        vc.check('not-cancelled/connection-handed-over-once', log['reconn'] == list(w.opened) and log['cb'] == 1)
+
+
 @harness('C45', 'Session.shutdown', functions=[SE + 'shutdown', SE + 'submit'], native='contracts.native.c45:replay')
 def session_shutdown(vc):
     """ensures Session.shutdown() marks the session shut down, cancels every initial connect attempt that has not started, shuts down every pool exactly once
